@@ -41,7 +41,9 @@ arr_real FIRDecimator::process(const arr_real& in) {
 }
 
 [[nodiscard]] int FIRDecimator::delay() const noexcept {
-    return sublen_ / 2;
+    //group delay of the (sublen * decim)-tap filter minus the decimation phase, in output samples
+    const int num = (sublen_ * decim_ - 1) - 2 * (decim_ - 1);
+    return (num + decim_) / (2 * decim_);
 }
 
 [[nodiscard]] int FIRDecimator::decim_rate() const noexcept {
